@@ -1,6 +1,10 @@
 import LocustModel.Query.Arith
 import LocustModel.Query.ArithSpec
 import LocustModel.Query.ArithTree
+import LocustModel.Query.ArithPlan
+import LocustModel.Lemmas.C06Shell
+import LocustModel.Lemmas.C06Sum
+import LocustModel.Lemmas.C06Plan
 /-
   C06 — integer arithmetic is exact or the query fails; it never wraps.
   Property theorems only.  Operands range over all of i64 (`inI64`), no size bound.
@@ -251,6 +255,378 @@ theorem C06_tree_total (e : Expr) (row : ArithTree.Row) : ∃ v o, evalRowModel 
           simp [cell, h]
     obtain ⟨v, o, hc⟩ := this
     simp [hc]
+
+-- ================================================================================================================
+-- Operator shells (binary_operator.rs): column at a time = row at a time, for all lengths and all garbage
+-- under NULL slots.
+section Shells
+open LM.ArithShell
+
+/-- **Shell correctness.** Whatever shell the factory picks for the operand kinds (vector∘vector, vector∘scalar,
+    scalar∘vector with the swap for `+`/`*`; nullable or not; null maps combined or taken from one side), the
+    nullable output it produces is well formed and reads, slot by slot, as the row-at-a-time model's cells, and the
+    error flag it returns is up exactly when the row-at-a-time model flags some row — independent of the data
+    stored under NULL slots, for columns of every length.
+    (`WfOperand n`: data and bitmap have `n` entries; `operandView`: the operand as a column of cells.) -/
+theorem C06_shell_rowwise (op : Op) (n : Nat) (l r : Operand) (hl : WfOperand n l) (hr : WfOperand n r)
+    (hv : (∃ d p, l = .vec d p) ∨ (∃ d p, r = .vec d p)) :
+    ∃ d p o, dispatch op l r = .ok d p o ∧ WfOperand n (.vec d p) ∧
+      (view d p, o) = rowsEval op (operandView n l) (operandView n r) :=
+  dispatch_rowwise op n l r hl hr hv
+
+/-- Two constant operands: the factory has no (ScalarI64, ScalarI64) case — the FatalError value of an unsupported
+    query shape (no constant folding), never a wrong number. -/
+theorem C06_shell_scalar_scalar_fatal (op : Op) (a b : Int) : dispatch op (.scalar a) (.scalar b) = .fatal := rfl
+
+/-- The row-at-a-time evaluation is, slot by slot, `Arith.cell` (to which `C06_cell_allowed` applies) … -/
+theorem C06_rows_cells (op : Op) (as bs : List (Option Int)) :
+    (rowsEval op as bs).1 = List.zipWith (fun a b => (cellT op a b).1) as bs ∧
+    (∀ a b, cell op a b = .ok (cellT op a b)) := by
+  refine ⟨?_, cell_eq_cellT op⟩
+  induction as generalizing bs with
+  | nil => cases bs <;> simp [rowsEval]
+  | cons a as ih => cases bs <;> simp [rowsEval, ih]
+
+/-- … and its flag is the disjunction of the rows' flags: a NULL row never raises it. -/
+theorem C06_rows_flag (op : Op) (as bs : List (Option Int)) :
+    (rowsEval op as bs).2 = (List.zipWith (fun a b => (cellT op a b).2) as bs).any id := by
+  induction as generalizing bs with
+  | nil => cases bs <;> simp [rowsEval]
+  | cons a as ih => cases bs <;> simp [rowsEval, ih]
+
+/-- **Chunked execution of the null-map combination.**  When a stage is streamed in chunks of `B` rows, the presence bit
+    that CombineNullMaps hands to the nullable shells for local row `i` of chunk `k` is exactly the conjunction of the two
+    operands' presence of global row `k*B + i` — for bitmaps of any length (shorter than the column: implied unset
+    bits), any chunk, any chunk size. -/
+theorem C06_combine_chunks (B k i : Nat) (hi : i < B) (l r : List Bool) :
+    (combineChunk B (chunkOf B k l) (chunkOf B k r)).getD i false
+      = (l.getD (k * B + i) false && r.getD (k * B + i) false) := by
+  simp [combineChunk, chunkOf, List.getD, hi, List.getElem?_take, List.getElem?_drop]
+
+/-- The code before fix `combine-null-maps-stale` did not have this property: second chunk (`k = 1`, `B = 8`) of
+    `l = [1,1] ++ 7 NULLs` (bitmap holds 2 bits only) and a fully present `r`: local row 0 inherits row 0's bit. -/
+theorem C06_combine_chunks_old_refuted :
+    let l := [true, true]
+    let r := List.replicate 9 true
+    let out0 := combineChunkOld (List.replicate 8 false) (chunkOf 8 0 l) (chunkOf 8 0 r)
+    (combineChunkOld out0 (chunkOf 8 1 l) (chunkOf 8 1 r)).getD 0 false = true ∧
+    (l.getD 8 false && r.getD 8 false) = false := by
+  decide
+
+example : dispatch .div (.vec [I64_MIN, 7, 5] (some [true, true, false])) (.vec [-1, 0, 0] (some [false, false, true]))
+    = .ok [1, 1, 1] (some [false, false, false]) false := by
+  simp [dispatch, combineNulls2, combineNullMaps, nullableVV, pcT, performChecked, I64_MIN, I64_MAX]
+example : WfOperand 3 (.vec [I64_MIN, 7, 5] (some [true, true, false])) := by simp [WfOperand]
+
+end Shells
+
+-- ================================================================================================================
+-- Planner + shells on one partition = the row-at-a-time model (supported fragment).
+section Plan
+open LM.ArithPlan LM.ArithShell LM.ArithTree
+
+/-- **The implementation model refines the row-level model.**  For every expression of the supported fragment (no NULL
+    literal, no operator over two constants), every partition length and every assignment of columns (present with or
+    without NULLs, entirely NULL, absent): compiling through the registry and executing through the operator shells
+    succeeds without FatalError / panic, and the value it computes denotes (`ValOk`) exactly the column-lifted
+    row-at-a-time semantics `colSem` — cells by `cellT` (= `Arith.cell`, cf. `C06_cell_allowed`), error flag = some
+    row's flag. -/
+theorem C06_plan_refines_rows (len : Nat) (cols : Nat → Option PCol)
+    (hcols : ∀ i x, cols i = some x → x.cells.length = len) (e : Expr) (hs : Supported e) :
+    ∃ v, evalPart len cols e = .ok v ∧ ValOk len v (colSem len cols e).1 (colSem len cols e).2 := by
+  obtain ⟨v, h1, h2, _⟩ := evalPart_colSem len cols hcols e hs
+  exact ⟨v, h1, h2⟩
+
+/-- Consequently one partition of `SELECT <expr> FROM t` answers Overflow iff some row's flag is up, and otherwise
+    exactly the row-level cells (a constant projection is not in the generated fragment). -/
+theorem C06_plan_partition (len : Nat) (cols : Nat → Option PCol)
+    (hcols : ∀ i x, cols i = some x → x.cells.length = len) (e : Expr) (hs : Supported e) (hc : isConst e = false) :
+    ((colSem len cols e).2 = true → ∃ q, runPartition len cols e = .err q ∧ q = .overflow) ∧
+    ((colSem len cols e).2 = false → ∃ nb, runPartition len cols e = .cells (colSem len cols e).1 nb) := by
+  obtain ⟨v, h1, ⟨hf, hflt, hun, hov, hlen, hty⟩, hsc⟩ := evalPart_colSem len cols hcols e hs
+  have hns : v.ty ≠ .scalar := fun h => by simp [hsc.mp h] at hc
+  constructor
+  · intro hflag
+    refine ⟨.overflow, ?_, rfl⟩
+    simp [runPartition, h1, hf, hun, hflt, hov, hflag]
+  · intro hflag
+    cases hv : v.ty with
+    | scalar => exact absurd hv hns
+    | null =>
+      simp only [hv] at hty
+      exact ⟨true, by simp [runPartition, h1, hf, hun, hflt, hov, hflag, hv, hty]⟩
+    | int nb =>
+      simp only [hv] at hty
+      obtain ⟨_, _, hview, _⟩ := hty
+      refine ⟨nb, ?_⟩
+      have htake : (colSem len cols e).1.take len = (colSem len cols e).1 := List.take_of_length_le (by omega)
+      simp [runPartition, h1, hf, hun, hflt, hov, hflag, hv, hview, htake]
+
+/-- A column that is entirely NULL in the partition (or absent from it) never turns integer arithmetic into a TypeError:
+    a node whose operands are integer vectors, constants or NULL columns always compiles. -/
+theorem C06_plan_no_type_error (op : Op) (len : Nat) (l r : Val) : evalNode op len l r ≠ .error .type := by
+  have hlk : ∃ e, lookup op l.ty r.ty = some e := by
+    cases hl : l.ty <;> cases hr : r.ty <;> cases op <;> exact ⟨_, rfl⟩
+  obtain ⟨e, he⟩ := hlk
+  simp only [evalNode, he]
+  split <;> (try split) <;> (try split) <;> simp
+
+/-- Cell `j` of the column-lifted semantics is the row-level model (`evalRowModel`) on row `j` of the partition, and the
+    partition's flag is up iff some row's flag is. -/
+theorem C06_plan_rows (len ncols : Nat) (cols : Nat → Option PCol)
+    (hcols : ∀ i x, cols i = some x → x.cells.length = len) (hn : ∀ i, ncols ≤ i → cols i = none) (e : Expr) :
+    (∀ j, j < len → evalRowModel e (rowOf len ncols cols j)
+        = .ok ((colSem len cols e).1.getD j none, (rowT e (rowOf len ncols cols j)).2)) ∧
+    ((colSem len cols e).2 = true ↔ ∃ j, j < len ∧ (rowT e (rowOf len ncols cols j)).2 = true) := by
+  obtain ⟨h1, h2⟩ := colSem_rows len ncols cols hcols hn e
+  refine ⟨?_, h2⟩
+  intro j hj
+  rw [evalRowModel_eq_rowT, h1 j hj]
+
+/-- **End to end on one partition, against the specification.**  If the implementation model — registry, shells, null
+    maps and all — returns cells for a partition of `SELECT <expr> FROM t` (supported fragment, i64 inputs), then every
+    returned cell is the specification's exact cell for its row: a wrapped, saturated or truncated value is never
+    returned, and a NULL operand gives NULL. -/
+theorem C06_plan_sound (len ncols : Nat) (cols : Nat → Option PCol)
+    (hcols : ∀ i x, cols i = some x → x.cells.length = len) (hn : ∀ i, ncols ≤ i → cols i = none)
+    (e : Expr) (hs : Supported e) (hc : isConst e = false) (he : WfExpr e)
+    (hrows : ∀ j, j < len → WfRow (rowOf len ncols cols j))
+    (cs : List (Option Int)) (nb : Bool) (h : runPartition len cols e = .cells cs nb) :
+    ∀ j, j < len → evalRowSpec e (rowOf len ncols cols j) = some (cs.getD j none) := by
+  obtain ⟨p1, p2⟩ := C06_plan_partition len cols hcols e hs hc
+  have hflag : (colSem len cols e).2 = false := by
+    cases hf : (colSem len cols e).2 with
+    | false => rfl
+    | true => obtain ⟨q, hq, _⟩ := p1 hf; rw [hq] at h; cases h
+  obtain ⟨nb', hcells⟩ := p2 hflag
+  rw [hcells] at h
+  have hcs : cs = (colSem len cols e).1 := by cases h; rfl
+  obtain ⟨r1, r2⟩ := C06_plan_rows len ncols cols hcols hn e
+  intro j hj
+  have hrj : (rowT e (rowOf len ncols cols j)).2 = false := by
+    cases hf : (rowT e (rowOf len ncols cols j)).2 with
+    | false => rfl
+    | true => exact absurd (r2.mpr ⟨j, hj, hf⟩) (by simp [hflag])
+  have hm := r1 j hj
+  rw [hrj] at hm
+  rw [hcs]
+  exact (C06_tree_sound e _ he (hrows j hj) _ hm).1
+
+example : Supported (.bin .add (.col 0) (.bin .mul (.col 1) (.const 3))) := by simp [Supported, isConst]
+
+end Plan
+
+-- ================================================================================================================
+-- SUM over integers: inside a partition (CheckedAggregate) and across partitions (merge_aggregate).
+section SumThms
+open LM.Sum LM.Merge
+
+/-- **In-partition SUM is exact or raises Overflow**, for every list of i64 values: if the accumulator's flag is clear
+    the result is the exact sum (and an i64). -/
+theorem C06_sum_partition_exact (xs : List Int) (v : Int) (h : sumChecked xs = (v, false)) :
+    v = xs.sum ∧ inI64 v := by
+  obtain ⟨_, hv, hin⟩ := accumulate_exact xs 0 false v h
+  exact ⟨by simpa using hv, hin (by decide)⟩
+
+/-- The flag is raised only when some running sum really leaves i64 (no spurious Overflow inside a partition). -/
+theorem C06_sum_partition_flag_needed (xs : List Int) (h : (sumChecked xs).2 = true) :
+    ∃ k, k ≤ xs.length ∧ ¬ inI64 ((xs.take k).sum) := by
+  obtain ⟨k, hk, hbad⟩ := accumulate_flag_needed xs 0 (by decide) h
+  exact ⟨k, hk, by simpa using hbad⟩
+
+/-- **Grouped accumulation.** The accumulator array of CheckedAggregate holds in slot `g` exactly what accumulating
+    the values of the rows with grouping id `g`, in row order, gives (all ids within the array, as sized by the
+    planner's `max_index`). -/
+theorem C06_agg_slot (rows : List (Nat × Int)) (accs : List Int) (o : Bool) (g : Nat)
+    (hrows : ∀ r ∈ rows, r.1 < accs.length) :
+    (aggArray (accs, o) rows).1.getD g 0
+      = (accumulate (accs.getD g 0, false) ((rows.filter (fun r => r.1 = g)).map (·.2))).1 := by
+  induction rows generalizing accs o with
+  | nil => simp [aggArray, accumulate]
+  | cons r rows ih =>
+    obtain ⟨g', x⟩ := r
+    have hg' : g' < accs.length := hrows (g', x) (by simp)
+    have hlen : (accs.set g' (ovfAdd (accs.getD g' 0) x).1).length = accs.length := by simp
+    have hrows' : ∀ r ∈ rows, r.1 < (accs.set g' (ovfAdd (accs.getD g' 0) x).1).length := by
+      intro r hr; rw [hlen]; exact hrows r (by simp [hr])
+    simp only [aggArray]
+    rw [ih _ _ hrows']
+    by_cases hgg : g' = g
+    · subst hgg
+      simp only [List.filter_cons, decide_true, if_true, List.map_cons, accumulate]
+      rw [accumulate_fst_flag _ _ (false || _)]
+      simp [List.getD, hg']
+    · simp only [List.filter_cons, hgg, decide_false, Bool.false_eq_true, if_false]
+      simp [List.getD, hgg]
+
+/-- … and if the operator did not fail, no group's accumulation raised its flag (so `C06_sum_partition_exact`
+    applies to every group). -/
+theorem C06_agg_no_error (rows : List (Nat × Int)) (accs : List Int) (o : Bool) (g : Nat)
+    (hrows : ∀ r ∈ rows, r.1 < accs.length) (h : (aggArray (accs, o) rows).2 = false) :
+    o = false ∧ (accumulate (accs.getD g 0, false) ((rows.filter (fun r => r.1 = g)).map (·.2))).2 = false := by
+  induction rows generalizing accs o with
+  | nil => simp_all [aggArray, accumulate]
+  | cons r rows ih =>
+    obtain ⟨g', x⟩ := r
+    have hg' : g' < accs.length := hrows (g', x) (by simp)
+    have hrows' : ∀ r ∈ rows, r.1 < (accs.set g' (ovfAdd (accs.getD g' 0) x).1).length := by
+      intro r hr; simp; exact hrows r (by simp [hr])
+    simp only [aggArray] at h
+    obtain ⟨ho, hacc⟩ := ih _ _ hrows' h
+    have ho1 : o = false := by cases o <;> simp_all
+    have ho2 : (ovfAdd (accs.getD g' 0) x).2 = false := by cases o <;> simp_all
+    refine ⟨ho1, ?_⟩
+    by_cases hgg : g' = g
+    · subst hgg
+      simp only [List.filter_cons, decide_true, if_true, List.map_cons, accumulate, Bool.false_or, ho2]
+      simpa [List.getD, List.getElem?_set, hg'] using hacc
+    · simp only [List.filter_cons, hgg, decide_false, Bool.false_eq_true, if_false]
+      simpa [List.getD, List.getElem?_set, hgg] using hacc
+
+/-- The property for SUM at full strength: whatever way the partitions' partial sums are merged, a result that is
+    returned is the exact sum of the non-NULL cells (NULL if there is none). -/
+def C06_sum_statement : Prop :=
+  ∀ t : PTree, WfTree t → ∀ v, evalTree t = .ok v → decodeOut v = exactSum (cellsOf t)
+
+/-- **Merging partial sums over ANY split and ANY merge tree is exact or fails with Overflow** — provided no partial
+    result (of a partition or of a merged range) is exactly i64::MAX, the value the engine reserves as its in-band
+    NULL.  Under that hypothesis the returned cell is the exact sum, and it is an i64. -/
+theorem C06_sum_partial (t : PTree) (hs : NoSentinel t) (v : Int) (h : evalTree t = .ok v) :
+    decodeOut v = exactSum (cellsOf t) ∧ inI64 v := by
+  rcases evalTree_represents t hs v h with ⟨he, hv⟩ | ⟨he, hne, hin⟩
+  · exact ⟨by simp [decodeOut, hv, he], by rw [hv]; decide⟩
+  · exact ⟨by simp [decodeOut, hne, he], hin⟩
+
+/-- The full statement is FALSE for the code as it is (finding `sum-sentinel`, DESIGN §8 #16): partition 1 holds
+    `i64::MAX-1, 1` (partial sum = i64::MAX = the NULL sentinel), partition 2 holds `0`; the merge drops partition 1's
+    partial result and returns 0 instead of 9223372036854775807.  Replayed on the real code by the harness corpus
+    (`corpus:sum-sentinel:*`). -/
+theorem C06_sum_refuted : ¬ C06_sum_statement := by
+  intro h
+  have := h (.node (.leaf [some (I64_MAX - 1), some 1]) (.leaf [some 0]))
+    ⟨by intro a ha; simp at ha; rcases ha with rfl | rfl <;> decide, by intro a ha; simp at ha; subst ha; decide⟩ 0
+    (by rfl)
+  revert this
+  decide
+
+/-- A failing SUM fails with the Overflow error value, never with a panic-like fault, for every tree. -/
+theorem C06_sum_error_is_overflow (t : PTree) (e : MergeErr) (h : evalTree t = .error e) : e = .overflow := by
+  induction t with
+  | leaf cells =>
+    simp only [evalTree, partialSum] at h
+    split at h
+    · simp at h; exact h.symm
+    · split at h <;> simp at h
+  | node l r ihl ihr =>
+    simp only [evalTree] at h
+    cases hl : evalTree l with
+    | error e1 => simp [hl] at h; subst h; exact ihl hl
+    | ok a =>
+      cases hr : evalTree r with
+      | error e2 => simp [hl, hr] at h; subst h; exact ihr hr
+      | ok b =>
+        simp only [hl, hr, combine] at h
+        split at h
+        · simp at h
+        · split at h
+          · simp at h
+          · split at h
+            · simp at h
+            · simp at h; exact h.symm
+
+/-- Where an exact running sum (inside a partition) or an exact merged sum (of two adjacent ranges) leaves i64. -/
+def OverflowSomewhere : PTree → Prop
+  | .leaf cells => ∃ k, k ≤ (presentVals cells).length ∧ ¬ inI64 (((presentVals cells).take k).sum)
+  | .node l r => OverflowSomewhere l ∨ OverflowSomewhere r ∨
+      ∃ a b, exactSum (cellsOf l) = some a ∧ exactSum (cellsOf r) = some b ∧ ¬ inI64 (a + b)
+
+/-- **No spurious Overflow from SUM**: (outside the sentinel finding) a SUM fails only if, under the bracketing that was
+    used, some exact running sum of a partition or some exact sum of two merged ranges really leaves i64. -/
+theorem C06_sum_error_needed (t : PTree) (hs : NoSentinel t) (e : MergeErr) (h : evalTree t = .error e) :
+    OverflowSomewhere t := by
+  induction t generalizing e with
+  | leaf cells =>
+    simp only [evalTree, partialSum] at h
+    split at h
+    · rename_i hflag
+      exact C06_sum_partition_flag_needed _ hflag
+    · split at h <;> simp at h
+  | node l r ihl ihr =>
+    obtain ⟨hsl, hsr, _⟩ := hs
+    simp only [evalTree] at h
+    cases hl : evalTree l with
+    | error e1 => exact Or.inl (ihl hsl e1 hl)
+    | ok a =>
+      cases hr : evalTree r with
+      | error e2 => exact Or.inr (Or.inl (ihr hsr e2 hr))
+      | ok b =>
+        simp only [hl, hr, combine] at h
+        right; right
+        rcases evalTree_represents l hsl a hl with ⟨_, hamax⟩ | ⟨la, hane, _⟩
+        · simp [hamax] at h
+        · rcases evalTree_represents r hsr b hr with ⟨_, hbmax⟩ | ⟨lb, hbne, _⟩
+          · simp [hane, hbmax] at h
+          · simp [hane, hbne] at h
+            split at h
+            · simp at h
+            · rename_i hnf
+              exact ⟨a, b, la, lb, hnf⟩
+
+example : NoSentinel (.node (.leaf [some (I64_MAX - 1), none]) (.leaf [some (-5), some 3])) := by
+  simp [NoSentinel, exactSum, presentVals, cellsOf, I64_MAX]
+example : evalTree (.node (.leaf [some (I64_MAX - 1), none]) (.leaf [some (-5), some 3])) = .ok (I64_MAX - 3) := by rfl
+example : evalTree (.node (.leaf [some (I64_MAX - 1)]) (.leaf [some 5])) = .error .overflow := by rfl
+example : sumChecked [I64_MAX - 1, 5] = (I64_MIN + 3, true) := by decide
+
+end SumThms
+
+-- ================================================================================================================
+-- Translator tie: the operator registry of query_plan.rs, re-extracted on every run (Gen/Registry.lean).
+section Registry
+open LM.Gen.Registry LM.ArithPlan
+
+/-- The checked planner node each user-visible integer operator must be compiled to. -/
+def checkedFactory : Func → Option Factory
+  | .add => some (.call "checked_add")
+  | .subtract => some (.call "checked_subtract")
+  | .multiply => some (.call "checked_multiply")
+  | .divide => some (.call "checked_divide")
+  | .modulo => some (.call "checked_modulo")
+  | _ => none
+
+def arithFuncs : List Func := [.add, .subtract, .multiply, .divide, .modulo]
+
+/-- **Every user-visible integer `+ - * / %` maps to a checked node**: in the registry as the source has it now, the
+    declaration the planner selects for (Integer, Integer) operands is the `checked_*` factory of that operator. -/
+theorem C06_registry_checked :
+    ∀ f ∈ arithFuncs,
+      ((entries f).find? fun e => e.sigs.contains (.integer, .integer)).map (·.factory) = checkedFactory f := by
+  decide
+
+/-- No declaration of an arithmetic operator builds an UNCHECKED integer node on integer operands: every entry is the
+    operator's checked node, a NULL forwarder (result NULL), the float multiplication (outside C06), or the
+    (Null, Integer) multiplication whose left operand — hence every result row — is NULL. -/
+theorem C06_registry_no_unchecked_int :
+    ∀ f ∈ arithFuncs, ∀ e ∈ entries f,
+      some e.factory = checkedFactory f ∨ e.factory = .forwardLeft ∨ e.factory = .forwardRight ∨
+      (e.factory = .callEnc "multiply" "F64" ∧ ¬ e.sigs.contains (.integer, .integer)) ∨
+      (e.factory = .castThen true "NullableI64" "multiply" "I64" ∧ e.sigs = [(.null, .integer)]) := by
+  decide
+
+/-- A column that is entirely NULL in a partition (type Null there) never makes integer arithmetic fail with a type
+    error: every operator has a declaration for every combination of Integer and Null operands. -/
+theorem C06_registry_null_total :
+    ∀ f ∈ arithFuncs, ∀ a ∈ [BT.integer, BT.null], ∀ b ∈ [BT.integer, BT.null],
+      ((entries f).find? fun e => e.sigs.contains (a, b)).isSome = true := by
+  decide
+
+/-- The model's interpretation of the selected declarations: Integer∘Integer is the checked node of the operator. -/
+theorem C06_registry_model (op : Op) (tl tr : Ty) (hl : tl.basic = .integer) (hr : tr.basic = .integer) :
+    (lookup op tl tr).map (fun e => interp e.factory) = some (.checked op) := by
+  simp only [lookup, hl, hr]
+  cases op <;> decide
+
+end Registry
 
 -- Non-vacuity: concrete operands meeting the hypotheses, at the edges of i64.
 example : performChecked .mod I64_MIN (-1) = .ok (0, false) := by
